@@ -51,12 +51,11 @@ theorem countF_update (n : Nat) (p q : Nat → Bool) (f : Nat) (hf : f < n) (hp 
 structure Inv2 (c : Cfg) (s : State) : Prop where
   cnt_eq : ∀ j, s.cnt j = countF c.n (fun g => decide (j < (s.forks g).inc))
   pop_le : ∀ f, f < c.n → s.popped ≤ (s.forks f).inc
+  mutex : ∀ f g j, f < c.n → g < c.n → holdsBox (s.forks f) j = true → holdsBox (s.forks g) j = true → f = g
   full_pop : ∀ j, (∀ g, g < c.n → j < (s.forks g).inc) →
-    j < s.popped ∨ ∃ g, g < c.n ∧ (s.forks g).pc = .bGet ∧ (s.forks g).inc = j + 1
-  get_inv : ∀ f, f < c.n → (s.forks f).pc = .bGet →
-    (∀ g, g < c.n → (s.forks f).inc ≤ (s.forks g).inc) ∧ s.popped < (s.forks f).inc
-  uniq : ∀ f g, f < c.n → g < c.n → (s.forks f).pc = .bGet → (s.forks g).pc = .bGet →
-    (s.forks f).inc = (s.forks g).inc → f = g
+    j < s.popped ∨ ∃ g, g < c.n ∧ ((s.forks g).pc = .bCmp ∨ (s.forks g).pc = .bGet) ∧ (s.forks g).inc = j + 1
+  cmp_inv : ∀ f, f < c.n → ((s.forks f).pc = .bCmp ∨ (s.forks f).pc = .bGet) → s.popped < (s.forks f).inc
+  get_inv : ∀ f, f < c.n → (s.forks f).pc = .bGet → ∀ g, g < c.n → (s.forks f).inc ≤ (s.forks g).inc
 
 theorem countF_false (n : Nat) : countF n (fun _ => false) = 0 := by
   induction n with
@@ -67,53 +66,128 @@ theorem inv2_init (c : Cfg) (hn : 0 < c.n) : Inv2 c init := by
   constructor
   · intro j; simp [init, fork0, countF_false]
   · intro f _; simp [init]
+  · intro f g j _ _ h; simp [init, fork0, holdsBox] at h
   · intro j h
     have := h 0 hn; simp [init, fork0] at this
   · intro f _ h; simp [init, fork0] at h
-  · intro f g _ _ h; simp [init, fork0] at h
+  · intro f _ h; simp [init, fork0] at h
 
-/-- a step that touches neither the counts, nor `popped`, nor who is about to pop -/
+/-- a step that touches neither the counts, nor `popped`, nor who is comparing / about to pop -/
 structure Frame (s s' : State) : Prop where
   inc_eq : ∀ g, (s'.forks g).inc = (s.forks g).inc
+  cmp_iff : ∀ g, (s'.forks g).pc = .bCmp ↔ (s.forks g).pc = .bCmp
   get_iff : ∀ g, (s'.forks g).pc = .bGet ↔ (s.forks g).pc = .bGet
   cnt_eq : s'.cnt = s.cnt
   popped_eq : s'.popped = s.popped
 
-theorem inv2_frame (c : Cfg) (s s' : State) (hfr : Frame s s') (h : Inv2 c s) : Inv2 c s' := by
-  obtain ⟨e1, e2, e3, e4⟩ := hfr
-  obtain ⟨h1, h2, h3, h4, h5⟩ := h
+theorem inv2_frame (c : Cfg) (s s' : State) (hfr : Frame s s') (h : Inv2 c s)
+    (hm : ∀ f g j, f < c.n → g < c.n → holdsBox (s'.forks f) j = true → holdsBox (s'.forks g) j = true → f = g) :
+    Inv2 c s' := by
+  obtain ⟨e1, e2, e3, e4, e5⟩ := hfr
+  obtain ⟨h1, h2, _, h4, h5, h6⟩ := h
   constructor
-  · intro j; simp only [e3, e1]; exact h1 j
-  · intro f hf; simp only [e4, e1]; exact h2 f hf
-  · intro j hj; simp only [e4, e1, e2] at hj ⊢; exact h3 j hj
-  · intro f hf hp; simp only [e4, e1, e2] at hp ⊢; exact h4 f hf hp
-  · intro f g hf hg hp hq; simp only [e1, e2] at hp hq ⊢; exact h5 f g hf hg hp hq
+  · intro j; simp only [e4, e1]; exact h1 j
+  · intro f hf; simp only [e5, e1]; exact h2 f hf
+  · exact hm
+  · intro j hj; simp only [e5, e1, e2, e3] at hj ⊢; exact h4 j hj
+  · intro f hf hp; simp only [e5, e1, e2, e3] at hp ⊢; exact h5 f hf hp
+  · intro f hf hp; simp only [e1, e3] at hp ⊢; exact h6 f hf hp
+
+theorem mutex_of_hold_eq (c : Cfg) (s s' : State) (h : Inv2 c s)
+    (he : ∀ g j, holdsBox (s'.forks g) j = holdsBox (s.forks g) j) :
+    ∀ f g j, f < c.n → g < c.n → holdsBox (s'.forks f) j = true → holdsBox (s'.forks g) j = true → f = g := by
+  intro f g j hf hg h1 h2
+  rw [he] at h1 h2
+  exact h.mutex f g j hf hg h1 h2
+
+theorem holdsBox_iff (fk : Fork) (j : Nat) : holdsBox fk j = true ↔
+    fk.cur = some j ∧ (fk.pc = .bInc ∨ fk.pc = .bCmp ∨ fk.pc = .bGet ∨ fk.pc = .bRel) := by
+  simp [holdsBox, or_assoc]
+
+theorem boxFree_spec (c : Cfg) (s : State) (f j g : Nat) (h : boxFree c s f j = true) (hg : g < c.n) (hgf : g ≠ f) :
+    holdsBox (s.forks g) j = false := by
+  simp only [boxFree, List.all_eq_true, List.mem_range] at h
+  have := h g hg
+  simp [hgf] at this
+  exact this
 
 set_option hygiene false in
 macro "tee_frame" : tactic => `(tactic| (
     rename_i hp
-    refine inv2_frame c _ _ ⟨?_, ?_, ?_, ?_⟩ h2
+    refine inv2_frame c s _ ⟨?_, ?_, ?_, ?_, ?_⟩ h2 (mutex_of_hold_eq c s _ h2 ?_)
     · intro g; by_cases hgf : g = f
       · subst hgf; simp
       · simp [setFork_ne _ _ _ _ hgf]
     · intro g; by_cases hgf : g = f
       · subst hgf; simp [hp]; try (repeat' split) <;> simp
       · simp [setFork_ne _ _ _ _ hgf]
+    · intro g; by_cases hgf : g = f
+      · subst hgf; simp [hp]; try (repeat' split) <;> simp
+      · simp [setFork_ne _ _ _ _ hgf]
     · rfl
-    · rfl))
+    · rfl
+    · intro g j; by_cases hgf : g = f
+      · subst hgf; rw [Bool.eq_iff_iff]; simp only [holdsBox_iff, setFork_same, hp]
+        (repeat' split) <;> simp
+      · simp [setFork_ne _ _ _ _ hgf]))
 
 theorem inv2_step (c : Cfg) (s : State) (a : Act) (s' : State) (hi : Inv c s) (h2 : Inv2 c s)
     (hs : Step c s a s') : Inv2 c s' := by
   obtain ⟨f, k⟩ := a
   have hf := hs.lt
   cases hs
+  case bacq j _ hc hb hp =>
+    refine inv2_frame c s _ ⟨?_, ?_, ?_, rfl, rfl⟩ h2 ?_
+    · intro g; by_cases hgf : g = f
+      · subst hgf; simp
+      · simp [setFork_ne _ _ _ _ hgf]
+    · intro g; by_cases hgf : g = f
+      · subst hgf; simp [hp]
+      · simp [setFork_ne _ _ _ _ hgf]
+    · intro g; by_cases hgf : g = f
+      · subst hgf; simp [hp]
+      · simp [setFork_ne _ _ _ _ hgf]
+    · intro f1 f2 j' hf1 hf2 h1 h2'
+      by_cases e1 : f1 = f <;> by_cases e2 : f2 = f
+      · rw [e1, e2]
+      · subst e1
+        simp [holdsBox, hc] at h1
+        subst h1
+        rw [setFork_ne _ _ _ _ e2] at h2'
+        have := boxFree_spec c s f1 j f2 hb hf2 e2
+        simp [this] at h2'
+      · subst e2
+        simp [holdsBox, hc] at h2'
+        subst h2'
+        rw [setFork_ne _ _ _ _ e1] at h1
+        have := boxFree_spec c s f2 j f1 hb hf1 e1
+        simp [this] at h1
+      · rw [setFork_ne _ _ _ _ e1] at h1; rw [setFork_ne _ _ _ _ e2] at h2'
+        exact h2.mutex f1 f2 j' hf1 hf2 h1 h2'
+  case brel _ hp =>
+    refine inv2_frame c s _ ⟨?_, ?_, ?_, rfl, rfl⟩ h2 ?_
+    · intro g; by_cases hgf : g = f
+      · subst hgf; simp
+      · simp [setFork_ne _ _ _ _ hgf]
+    · intro g; by_cases hgf : g = f
+      · subst hgf; simp [hp]
+      · simp [setFork_ne _ _ _ _ hgf]
+    · intro g; by_cases hgf : g = f
+      · subst hgf; simp [hp]
+      · simp [setFork_ne _ _ _ _ hgf]
+    · intro f1 f2 j' hf1 hf2 h1 h2'
+      have e1 : f1 ≠ f := by intro e; subst e; simp [holdsBox] at h1
+      have e2 : f2 ≠ f := by intro e; subst e; simp [holdsBox] at h2'
+      rw [setFork_ne _ _ _ _ e1] at h1; rw [setFork_ne _ _ _ _ e2] at h2'
+      exact h2.mutex f1 f2 j' hf1 hf2 h1 h2'
   case inc j _ hc hp =>
     have hab := (hi.forks f hf).atBox (by simp [hp, Pc.atBox])
     have hj : (s.forks f).inc = j := by
       have := hab.1; rw [hc] at this; exact (Option.some.inj this).symm
-    obtain ⟨h1, h3, h4, h5, h6⟩ := h2
+    have h2' := h2
+    obtain ⟨h1, h3, _, h4, h5, h6⟩ := h2
     have hcnt : s.cnt j + 1 = countF c.n (fun g => decide (j < ((setFork s f { s.forks f with
-          pc := if s.cnt j + 1 = c.n then .bGet else .bRel, inc := (s.forks f).inc + 1 }).forks g).inc)) := by
+          pc := .bCmp, inc := (s.forks f).inc + 1 }).forks g).inc)) := by
       rw [h1 j]
       refine (countF_update c.n _ _ f hf ?_ ?_ ?_).symm
       · simp [hj]
@@ -134,14 +208,15 @@ theorem inv2_step (c : Cfg) (s : State) (a : Act) (s' : State) (hi : Inv c s) (h
       by_cases hgf : g = f
       · subst hgf; have := h3 g hg; simp; omega
       · simpa [setFork_ne _ _ _ _ hgf] using h3 g hg
+    · refine mutex_of_hold_eq c s _ h2' ?_
+      intro g j'; by_cases hgf : g = f
+      · subst hgf; simp [holdsBox, hp]
+      · simp [setFork_ne _ _ _ _ hgf]
     · intro i hfull
       by_cases hij : i = j
       · subst hij
         right
-        refine ⟨f, hf, ?_, by simp [hj]⟩
-        have hn : s.cnt i + 1 = c.n := by
-          rw [hcnt]; exact (countF_eq_n _ _).mpr (fun g hg => by simpa using hfull g hg)
-        simp [hn]
+        exact ⟨f, hf, by simp, by simp [hj]⟩
       · have hfull' : ∀ g, g < c.n → i < (s.forks g).inc := by
           intro g hg
           have := hfull g hg
@@ -155,44 +230,71 @@ theorem inv2_step (c : Cfg) (s : State) (a : Act) (s' : State) (hi : Inv c s) (h
           exact ⟨g, hg, by simpa [setFork_ne _ _ _ _ hgf] using hpg, by simpa [setFork_ne _ _ _ _ hgf] using hig⟩
     · intro h hh hph
       by_cases hhf : h = f
+      · subst hhf; have := h3 h hh; simp; omega
+      · simp only [setFork_ne _ _ _ _ hhf] at hph ⊢
+        exact h5 h hh hph
+    · intro h hh hph g hg
+      have hhf : h ≠ f := by intro e; subst e; simp at hph
+      simp only [setFork_ne _ _ _ _ hhf] at hph ⊢
+      have := h6 h hh hph g hg
+      by_cases hgf : g = f
+      · subst hgf; simp; omega
+      · simpa [setFork_ne _ _ _ _ hgf] using this
+  case cmp j _ hc hp =>
+    have hpi := (hi.forks f hf).postInc (by simp [hp, Pc.postInc])
+    have hj : (s.forks f).inc = j + 1 := by
+      have := hpi.1; rw [hc] at this; have := Option.some.inj this; omega
+    have h2' := h2
+    obtain ⟨h1, h3, _, h4, h5, h6⟩ := h2
+    have hinc : ∀ g, ((setFork s f { s.forks f with pc := if s.cnt j = c.n then .bGet else .bRel }).forks g).inc
+        = (s.forks g).inc := by
+      intro g; by_cases hgf : g = f
+      · subst hgf; simp
+      · simp [setFork_ne _ _ _ _ hgf]
+    have hfulliff : s.cnt j = c.n ↔ ∀ g, g < c.n → j < (s.forks g).inc := by
+      rw [h1 j, countF_eq_n]; simp
+    constructor
+    · intro i; simp only [hinc]; exact h1 i
+    · intro g hg; simp only [hinc]; exact h3 g hg
+    · refine mutex_of_hold_eq c s _ h2' ?_
+      intro g j'; by_cases hgf : g = f
+      · subst hgf; by_cases hn : s.cnt j = c.n <;> simp [holdsBox, hp, hn]
+      · simp [setFork_ne _ _ _ _ hgf]
+    · intro i hfull
+      simp only [hinc] at hfull ⊢
+      rcases h4 i hfull with h | ⟨g, hg, hpg, hig⟩
+      · left; exact h
+      · right
+        by_cases hgf : g = f
+        · subst hgf
+          have hij : i = j := by omega
+          subst hij
+          refine ⟨g, hg, ?_, hig⟩
+          simp [hfulliff.mpr hfull]
+        · exact ⟨g, hg, by simpa [setFork_ne _ _ _ _ hgf] using hpg, hig⟩
+    · intro h hh hph
+      simp only [hinc]
+      by_cases hhf : h = f
+      · subst hhf; exact h5 h hh (Or.inl hp)
+      · simp only [setFork_ne _ _ _ _ hhf] at hph; exact h5 h hh hph
+    · intro h hh hph g hg
+      simp only [hinc]
+      by_cases hhf : h = f
       · subst hhf
         simp at hph
-        have hn : s.cnt j + 1 = c.n := by
-          by_cases e : s.cnt j + 1 = c.n
+        have hn : s.cnt j = c.n := by
+          by_cases e : s.cnt j = c.n
           · exact e
           · simp [e] at hph
-        have hall := (countF_eq_n _ _).mp (hcnt.symm.trans hn)
-        refine ⟨?_, ?_⟩
-        · intro g hg
-          have := hall g hg
-          simp at this ⊢
-          by_cases hgf : g = h
-          · subst hgf; simp
-          · simp [setFork_ne _ _ _ _ hgf] at this ⊢; omega
-        · have := h3 h hh; simp; omega
-      · simp only [setFork_ne _ _ _ _ hhf] at hph ⊢
-        obtain ⟨q1, q2⟩ := h5 h hh hph
-        refine ⟨?_, q2⟩
-        intro g hg
-        by_cases hgf : g = f
-        · subst hgf; have := q1 g hg; simp; omega
-        · simpa [setFork_ne _ _ _ _ hgf] using q1 g hg
-    · intro f1 f2 hf1 hf2 hp1 hp2 he
-      by_cases e1 : f1 = f <;> by_cases e2 : f2 = f
-      · rw [e1, e2]
-      · subst e1
-        simp only [setFork_ne _ _ _ _ e2] at hp2 he
-        have := (h5 f2 hf2 hp2).1 f1 hf1
-        simp at he; omega
-      · subst e2
-        simp only [setFork_ne _ _ _ _ e1] at hp1 he
-        have := (h5 f1 hf1 hp1).1 f2 hf2
-        simp at he; omega
-      · simp only [setFork_ne _ _ _ _ e1, setFork_ne _ _ _ _ e2] at hp1 hp2 he
-        exact h6 f1 f2 hf1 hf2 hp1 hp2 he
+        have := hfulliff.mp hn g hg
+        omega
+      · simp only [setFork_ne _ _ _ _ hhf] at hph; exact h6 h hh hph g hg
   case get _ hl hp =>
-    obtain ⟨h1, h3, h4, h5, h6⟩ := h2
-    obtain ⟨q1, q2⟩ := h5 f hf hp
+    have h2' := h2
+    have hmut := h2.mutex
+    obtain ⟨h1, h3, _, h4, h5, h6⟩ := h2
+    have q1 := h6 f hf hp
+    have q2 := h5 f hf (Or.inr hp)
     have hown : s.popped + 1 = (s.forks f).inc := by
       apply Classical.byContradiction
       intro hne
@@ -206,9 +308,14 @@ theorem inv2_step (c : Cfg) (s : State) (a : Act) (s' : State) (hi : Inv c s) (h
       · simp [setFork_ne _ _ _ _ hgf]
     have hpc : ∀ g, g ≠ f → ((setFork s f { s.forks f with pc := .bRel }).forks g).pc = (s.forks g).pc := by
       intro g hgf; simp [setFork_ne _ _ _ _ hgf]
+    have hpif := (hi.forks f hf).postInc (by simp [hp, Pc.postInc])
     constructor
     · intro j; simp only [hinc]; exact h1 j
     · intro g hg; simp only [hinc]; have := q1 g hg; show s.popped + 1 ≤ _; omega
+    · refine mutex_of_hold_eq c s _ h2' ?_
+      intro g j'; by_cases hgf : g = f
+      · subst hgf; simp [holdsBox, hp]
+      · simp [setFork_ne _ _ _ _ hgf]
     · intro i hfull
       simp only [hinc] at hfull ⊢
       rcases h4 i hfull with h | ⟨g, hg, hpg, hig⟩
@@ -220,17 +327,24 @@ theorem inv2_step (c : Cfg) (s : State) (a : Act) (s' : State) (hi : Inv c s) (h
       have hhf : h ≠ f := by intro e; subst e; simp at hph
       rw [hpc h hhf] at hph
       simp only [hinc]
-      obtain ⟨r1, r2⟩ := h5 h hh hph
-      refine ⟨r1, ?_⟩
+      have r2 := h5 h hh hph
       show s.popped + 1 < _
-      have : (s.forks h).inc ≠ (s.forks f).inc := fun e => hhf (h6 h f hh hf hph hp e)
+      have hne : (s.forks h).inc ≠ (s.forks f).inc := by
+        intro e
+        have hpih := (hi.forks h hh).postInc (by rcases hph with h' | h' <;> simp [h', Pc.postInc])
+        apply hhf
+        refine hmut h f ((s.forks f).inc - 1) hh hf ?_ ?_
+        · simp only [holdsBox, Bool.and_eq_true, Bool.or_eq_true, beq_iff_eq]
+          refine ⟨by rw [hpih.1, e], ?_⟩
+          rcases hph with h' | h' <;> simp [h']
+        · simp only [holdsBox, Bool.and_eq_true, Bool.or_eq_true, beq_iff_eq]
+          exact ⟨hpif.1, by simp [hp]⟩
       omega
-    · intro f1 f2 hf1 hf2 hp1 hp2 he
-      have e1 : f1 ≠ f := by intro e; subst e; simp at hp1
-      have e2 : f2 ≠ f := by intro e; subst e; simp at hp2
-      rw [hpc f1 e1] at hp1; rw [hpc f2 e2] at hp2
-      simp only [hinc] at he
-      exact h6 f1 f2 hf1 hf2 hp1 hp2 he
+    · intro h hh hph g hg
+      have hhf : h ≠ f := by intro e; subst e; simp at hph
+      rw [hpc h hhf] at hph
+      simp only [hinc]
+      exact h6 h hh hph g hg
   all_goals tee_frame
 
 theorem inv12_reachable (c : Cfg) (hn : 0 < c.n) {s : State} (hr : Reachable c s) : Inv c s ∧ Inv2 c s :=
@@ -264,7 +378,8 @@ theorem linked_le_put (c : Cfg) (s : State) (hi : Inv c s) :
 theorem get_own (c : Cfg) (s : State) (hi : Inv c s) (h2 : Inv2 c s) (f : Nat) (hf : f < c.n)
     (hp : (s.forks f).pc = .bGet) :
     (s.forks f).cur = some s.popped ∧ s.popped + 1 = (s.forks f).inc ∧ s.popped < s.put := by
-  obtain ⟨q1, q2⟩ := h2.get_inv f hf hp
+  have q1 := h2.get_inv f hf hp
+  have q2 := h2.cmp_inv f hf (Or.inr hp)
   have hown : s.popped + 1 = (s.forks f).inc := by
     apply Classical.byContradiction
     intro hne
